@@ -12,7 +12,12 @@
 //   add                                                -> dht <v6:port>*
 //   announce v6=<0|1>                                  -> dht …
 //   setconf t= w= d= started=<n>                       -> dht … ws-ok
-//   slowtick stale=<0|1>                               -> dht … tr <p4>,<p6> | tr none
+//   slowtick stale=<0|1> ready=<0|1>                   -> dht … tr <p4>,<p6> | tr none
+//   settle fail=<0|1> started=<n>                      -> tr none ws-ok late -
+//        (everything in flight - held tracker announces, held web-seed fetches - finishes,
+//         failing or succeeding; then the queued events run through the real handler)
+//   metadata started=<n>                               -> complete=1 ws-ok late -   (magnet cases)
+//   traffic started=<n>                                -> ws-ok late -
 //   reqtick started=<n> | webseed idx=<i> started=<n>  -> ws-ok
 //   peer dht=<0|1> ext=<0|1> v6seen=<0|1>              -> port=<n|none> ext0=<ver>,<port>,<v6> | ext0=none
 //   incoming                                           -> offered=<0|1> accepted=<0|1>
@@ -32,6 +37,7 @@ import (
 	"net/http/httptest"
 	"net/netip"
 	"os"
+	"runtime"
 	"sort"
 	"strconv"
 	"strings"
@@ -59,26 +65,109 @@ const (
 type trackerCall struct {
 	port4, port6 int
 	proxy        string
+	url          string
 }
 
+// fakeTracker: an announce is held in flight until the harness lets it fail or succeed.
 type fakeTracker struct {
-	url   string
-	calls chan trackerCall
-	mu    sync.Mutex
-	asked int
+	url       string
+	tc        *tcase
+	mu        sync.Mutex
+	state     tracker.State
+	rel       chan bool // true = fail
+	gaveReady int
 }
 
 func (f *fakeTracker) URL() string { return f.url }
 func (f *fakeTracker) GetState() (tracker.State, error) {
 	f.mu.Lock()
-	f.asked++
-	f.mu.Unlock()
-	return tracker.Ready, nil
+	defer f.mu.Unlock()
+	if f.state == tracker.Ready {
+		f.gaveReady++
+	}
+	if f.state == tracker.Error {
+		return f.state, errors.New("fake failure")
+	}
+	return f.state, nil
 }
 func (f *fakeTracker) Announce(ctx context.Context, hash []byte, myid []byte, want int, size int64,
 	port4, port6 int, proxy string, fn func(netip.AddrPort) bool) error {
-	f.calls <- trackerCall{port4, port6, proxy}
-	return nil
+	f.mu.Lock()
+	f.state = tracker.Busy
+	rel := make(chan bool, 1)
+	f.rel = rel
+	f.mu.Unlock()
+	f.tc.trStarts <- trackerCall{port4, port6, proxy, f.url}
+	fail := false
+	var err error
+	select {
+	case fail = <-rel:
+		if fail {
+			err = errors.New("fake tracker failure")
+		}
+	case <-ctx.Done():
+		err = ctx.Err()
+	case <-time.After(60 * time.Second):
+	}
+	f.mu.Lock()
+	if err != nil {
+		f.state = tracker.Error
+	} else {
+		f.state = tracker.Idle
+	}
+	f.rel = nil
+	f.mu.Unlock()
+	f.tc.trDone <- struct{}{}
+	return err
+}
+
+// releaseTrackers lets every announce in flight finish (failing or not) and waits for it
+func (tc *tcase) releaseTrackers(fail bool) {
+	n := 0
+	for _, f := range tc.trackers {
+		f.mu.Lock()
+		if f.rel != nil {
+			f.rel <- fail
+			f.rel = nil
+			n++
+		}
+		f.mu.Unlock()
+	}
+	for ; n > 0; n-- {
+		select {
+		case <-tc.trDone:
+		case <-time.After(3 * time.Second):
+		}
+	}
+}
+
+// reviveTrackers: time passes, every tracker that is not busy is due again
+func (tc *tcase) reviveTrackers() {
+	for _, f := range tc.trackers {
+		f.mu.Lock()
+		if f.state != tracker.Busy {
+			f.state = tracker.Ready
+		}
+		f.mu.Unlock()
+	}
+}
+
+// trackerReady mirrors trackerAnnounce's walk: some tier's first non-Error tracker is Ready
+func (tc *tcase) trackerReady() bool {
+	for _, tier := range tc.tiers {
+		for _, f := range tier {
+			f.mu.Lock()
+			st := f.state
+			f.mu.Unlock()
+			if st == tracker.Ready {
+				return true
+			}
+			if st != tracker.Error {
+				break
+			}
+		}
+	}
+	return false
 }
 
 type dhtCall struct {
@@ -98,26 +187,85 @@ func takeDht(h hash.Hash) []dhtCall {
 	return c
 }
 
-// the web server: web seed and HTTP proxy at once; a fetch hangs until the case ends
+// the web server: web seed and HTTP proxy at once; a fetch is held until the harness lets it
+// fail (404) or succeed (206 with the requested range)
+type wsControl struct {
+	hold     chan struct{}
+	success  bool
+	inflight int
+}
+
 var wsMu sync.Mutex
 var wsSeen = map[string]int{} // torrent name -> requests received
-var wsRelease = map[string]chan struct{}{}
+var wsCtl = map[string]*wsControl{}
+
+const torrentLength = 65536 * 16
 
 func wsHandler(w http.ResponseWriter, r *http.Request) {
 	parts := strings.Split(strings.Trim(r.URL.Path, "/"), "/")
 	name := parts[len(parts)-1]
 	wsMu.Lock()
 	wsSeen[name]++
-	rel := wsRelease[name]
+	ctl := wsCtl[name]
+	var hold chan struct{}
+	if ctl != nil {
+		ctl.inflight++
+		hold = ctl.hold
+	}
 	wsMu.Unlock()
-	if rel != nil {
+	if hold != nil {
 		select {
-		case <-rel:
+		case <-hold:
 		case <-r.Context().Done():
-		case <-time.After(30 * time.Second):
+		case <-time.After(60 * time.Second):
 		}
 	}
-	http.Error(w, "gone", http.StatusNotFound)
+	success := false
+	wsMu.Lock()
+	if ctl != nil {
+		success = ctl.success
+	}
+	wsMu.Unlock()
+	var from, to int64
+	if n, _ := fmt.Sscanf(r.Header.Get("Range"), "bytes=%d-%d", &from, &to); success && n == 2 && to >= from && to < torrentLength {
+		w.Header().Set("Content-Range", fmt.Sprintf("bytes %d-%d/%d", from, to, torrentLength))
+		w.Header().Set("Content-Length", strconv.FormatInt(to-from+1, 10))
+		w.WriteHeader(http.StatusPartialContent)
+		w.Write(make([]byte, to-from+1))
+	} else {
+		http.Error(w, "gone", http.StatusNotFound)
+	}
+	wsMu.Lock()
+	if ctl != nil {
+		ctl.inflight--
+	}
+	wsMu.Unlock()
+}
+
+// releaseFetches lets every held fetch of the torrent finish and waits for the handlers
+func (tc *tcase) releaseFetches(success bool) {
+	wsMu.Lock()
+	ctl := wsCtl[tc.name]
+	if ctl == nil {
+		wsMu.Unlock()
+		return
+	}
+	ctl.success = success
+	close(ctl.hold)
+	wsMu.Unlock()
+	deadline := time.Now().Add(3 * time.Second)
+	for time.Now().Before(deadline) {
+		wsMu.Lock()
+		n := ctl.inflight
+		wsMu.Unlock()
+		if n == 0 {
+			break
+		}
+		time.Sleep(200 * time.Microsecond)
+	}
+	wsMu.Lock()
+	ctl.hold = make(chan struct{})
+	wsMu.Unlock()
 }
 
 func wsCount(name string) int {
@@ -163,43 +311,88 @@ func b01(b bool) string {
 	return "0"
 }
 
+type remotePeer struct {
+	b        net.Conn
+	w        *bufio.Writer
+	ext      bool
+	mu       sync.Mutex
+	prologue bool     // the first messages have been read
+	late     []string // Port / Extended0 messages seen after the prologue
+}
+
 type tcase struct {
 	t        *tor.Torrent
 	name     string
 	proxied  bool
+	magnet   bool
+	info     []byte
 	cur      conf
 	trackers []*fakeTracker
-	started  int // web-seed fetches we saw being started (chunks newly in flight)
+	tiers    [][]*fakeTracker
+	trStarts chan trackerCall
+	trDone   chan struct{}
 	ctx      context.Context
 	cancel   context.CancelFunc
 	conns    []net.Conn
+	remotes  []*remotePeer
 	nextIdx  uint32
 }
 
 var wsURL string
 
-func newTorrent(proxied bool, loop bool) (*tcase, error) {
+func infoOf(meta []byte) []byte {
+	i := bytes.Index(meta, []byte("4:infod"))
+	j := bytes.LastIndex(meta, []byte("8:url-list"))
+	return meta[i+6 : j]
+}
+
+func newTorrent(proxied bool, loop bool, magnet bool) (*tcase, error) {
 	serial++
 	name := fmt.Sprintf("c18-%d", serial)
 	proxy := ""
 	if proxied {
 		proxy = wsURL // the local server doubles as an HTTP proxy
 	}
-	t, err := tor.ReadTorrent(proxy, bytes.NewReader(metainfo(name, wsURL, 3)))
+	meta := metainfo(name, wsURL, 3)
+	t, err := tor.ReadTorrent(proxy, bytes.NewReader(meta))
 	if err != nil {
 		return nil, err
 	}
+	tc := &tcase{name: name, proxied: proxied, magnet: magnet, info: infoOf(meta)}
+	if magnet {
+		// what ReadMagnet produces: hash and web seeds known, no metadata yet
+		m, err := tor.New(proxy, t.Hash, "", nil, 0, nil, t.Webseeds())
+		if err != nil {
+			return nil, err
+		}
+		if h := sha1.Sum(tc.info); !bytes.Equal(h[:], t.Hash) {
+			return nil, errors.New("info extraction")
+		}
+		t = m
+	}
 	t.Log.SetOutput(io.Discard)
-	tc := &tcase{t: t, name: name, proxied: proxied}
+	tc.t = t
 	d, ut, uw := t.VerifConf()
 	tc.cur = conf{ut, uw, d}
-	for i := 0; i < 2; i++ {
-		tc.trackers = append(tc.trackers, &fakeTracker{url: fmt.Sprintf("fake://%s/%d", name, i), calls: make(chan trackerCall, 64)})
+	tc.trStarts = make(chan trackerCall, 256)
+	tc.trDone = make(chan struct{}, 256)
+	var tiers [][]tracker.Tracker
+	for ti, n := range []int{3, 2, 1} {
+		var tier []tracker.Tracker
+		var ftier []*fakeTracker
+		for i := 0; i < n; i++ {
+			f := &fakeTracker{url: fmt.Sprintf("fake://%s/%d/%d", name, ti, i), tc: tc, state: tracker.Ready}
+			tc.trackers = append(tc.trackers, f)
+			ftier = append(ftier, f)
+			tier = append(tier, f)
+		}
+		tiers = append(tiers, tier)
+		tc.tiers = append(tc.tiers, ftier)
 	}
-	t.VerifSetTrackers([][]tracker.Tracker{{tc.trackers[0]}, {tc.trackers[1]}})
+	t.VerifSetTrackers(tiers)
 	tc.ctx, tc.cancel = context.WithCancel(context.Background())
 	wsMu.Lock()
-	wsRelease[name] = make(chan struct{})
+	wsCtl[name] = &wsControl{hold: make(chan struct{})}
 	wsMu.Unlock()
 	if !loop {
 		tor.VerifInit(t, 4096, uint64(serial))
@@ -212,10 +405,12 @@ func newTorrent(proxied bool, loop bool) (*tcase, error) {
 
 func (tc *tcase) close() {
 	tc.cancel()
+	tc.releaseTrackers(false)
 	wsMu.Lock()
-	if ch := wsRelease[tc.name]; ch != nil {
-		close(ch)
-		delete(wsRelease, tc.name)
+	if ctl := wsCtl[tc.name]; ctl != nil {
+		close(ctl.hold)
+		ctl.hold = nil
+		delete(wsCtl, tc.name)
 	}
 	wsMu.Unlock()
 	for _, c := range tc.conns {
@@ -223,36 +418,57 @@ func (tc *tcase) close() {
 	}
 }
 
-func (tc *tcase) inFlightCount() int {
+func (tc *tcase) wsBusy() int {
 	n := 0
-	for _, v := range tc.t.VerifInFlight() {
-		if v > 0 {
-			n++
-		}
+	for _, ws := range tc.t.Webseeds() {
+		n += ws.Count()
 	}
 	return n
 }
 
-// fetchesStarted runs f and returns how many web-seed fetches it started: a fetch marks at
-// least one new chunk in flight before its goroutine is launched; every fetch hangs in our
-// server, so the server's request count must reach the running total.
+// fetchesStarted runs f and returns how many web-seed fetches it started.  maybeWebseed
+// marks the chunks of a fetch in flight before it launches the goroutine, so if no chunk's
+// in-flight count went up nothing was started (synchronous).  Otherwise the goroutines are
+// given the processor; each fetch counts itself in its web seed (Count) before any I/O and
+// then hangs in our server, so we wait until the server has seen as many requests as the
+// web seeds have fetches under way.  (No fetch finishes meanwhile: they are all held.)
 func (tc *tcase) fetchesStarted(c *vhlib.Ctx, f func()) int {
 	before := wsCount(tc.name)
-	fl0 := tc.inFlightCount()
+	busy0 := tc.wsBusy()
+	fl0 := tc.t.VerifInFlight()
 	f()
-	fl1 := tc.inFlightCount()
-	if fl1 == fl0 {
-		// nothing was reserved, so nothing may arrive; give a stray goroutine a moment
-		time.Sleep(200 * time.Microsecond)
+	fl1 := tc.t.VerifInFlight()
+	increased := len(fl1) != len(fl0)
+	for i := range fl1 {
+		if i < len(fl0) && fl1[i] > fl0[i] {
+			increased = true
+		}
+	}
+	if !increased {
 		return wsCount(tc.name) - before
 	}
-	// something was started: wait for it to reach the server
-	deadline := time.Now().Add(3 * time.Second)
-	for wsCount(tc.name) == before && time.Now().Before(deadline) {
-		time.Sleep(200 * time.Microsecond)
+	for i := 0; i < 200; i++ {
+		runtime.Gosched()
 	}
-	time.Sleep(2 * time.Millisecond) // a second fetch of the same call
-	return wsCount(tc.name) - before
+	start := time.Now()
+	for {
+		k := tc.wsBusy() - busy0
+		a := wsCount(tc.name) - before
+		if k > 0 && a >= k {
+			time.Sleep(300 * time.Microsecond)
+			if tc.wsBusy()-busy0 <= wsCount(tc.name)-before {
+				return wsCount(tc.name) - before
+			}
+			continue
+		}
+		if k <= 0 && time.Since(start) > 4*time.Millisecond {
+			return a // the chunks were requested from peers
+		}
+		if time.Since(start) > 3*time.Second {
+			return a
+		}
+		time.Sleep(100 * time.Microsecond)
+	}
 }
 
 func dhtStr(cs []dhtCall) string {
@@ -266,37 +482,94 @@ func dhtStr(cs []dhtCall) string {
 	return "dht " + strings.Join(s, " ")
 }
 
-func (tc *tcase) trackerCalls(expectAsked bool) []trackerCall {
+// trackerCalls: the announces that STARTED since the last call.  If trackerAnnounce found a
+// Ready tracker it has launched the announce goroutine: wait for it to reach the fake.
+func (tc *tcase) trackerCalls() []trackerCall {
 	var out []trackerCall
-	asked := 0
+	gave := 0
 	for _, f := range tc.trackers {
 		f.mu.Lock()
-		asked += f.asked
-		f.asked = 0
+		gave += f.gaveReady
+		f.gaveReady = 0
 		f.mu.Unlock()
 	}
-	if asked > 0 {
-		// trackerAnnounce found a Ready tracker and launched the announce goroutine
+	for ; gave > 0; gave-- {
 		select {
-		case c := <-tc.trackers[0].calls:
-			out = append(out, c)
-		case c := <-tc.trackers[1].calls:
+		case c := <-tc.trStarts:
 			out = append(out, c)
 		case <-time.After(3 * time.Second):
 		}
 	}
-	for _, f := range tc.trackers {
+	for {
+		select {
+		case c := <-tc.trStarts:
+			out = append(out, c)
+			continue
+		default:
+		}
+		break
+	}
+	return out
+}
+
+func trStr(trs []trackerCall) string {
+	if len(trs) == 0 {
+		return "tr none"
+	}
+	s := fmt.Sprintf("tr %d,%d", trs[0].port4, trs[0].port6)
+	if len(trs) > 1 {
+		s += fmt.Sprintf(" +%d", len(trs)-1)
+	}
+	return s
+}
+
+// pump runs everything queued for the torrent through the real handler (what the event
+// loop would do), a few rounds so that goroutines woken by it can post their events too
+func (tc *tcase) pump(rounds int) {
+	for r := 0; r < rounds; r++ {
+		time.Sleep(time.Millisecond)
 		for {
 			select {
-			case c := <-f.calls:
-				out = append(out, c)
+			case e := <-tc.t.Event:
+				tc.handle(e)
 				continue
 			default:
 			}
 			break
 		}
 	}
+}
+
+// takeLate: the Port / Extended0 messages the remote ends received after the prologue
+func (tc *tcase) takeLate() []string {
+	var out []string
+	for _, r := range tc.remotes {
+		r.mu.Lock()
+		out = append(out, r.late...)
+		r.late = nil
+		r.mu.Unlock()
+	}
 	return out
+}
+
+func lateStr(l []string) string {
+	if len(l) == 0 {
+		return "late -"
+	}
+	return "late " + strings.Join(l, ";")
+}
+
+func (tc *tcase) checkLate(c *vhlib.Ctx, l []string, step string) {
+	if !tc.proxied {
+		return
+	}
+	for _, m := range l {
+		if strings.HasPrefix(m, "port=") {
+			c.Violate("proxied-port-message", "a proxied torrent sent a DHT Port message during "+step+": "+m, c.Case())
+		} else if m != "ext0=0,0,0" {
+			c.Violate("proxied-extended-handshake:"+step, "a proxied torrent sent an extended handshake revealing version/port/IPv6 during "+step+": "+m, c.Case())
+		}
+	}
 }
 
 // ---------------------------------------------------------------- the oracle (property text)
@@ -336,7 +609,7 @@ func (tc *tcase) handle(e peer.TorEvent) {
 func stepAdd(c *vhlib.Ctx, tc *tcase) {
 	// the real AddTorrent on a twin with the same settings (it starts an event loop, which
 	// is stopped at once): AddTorrent's own announces
-	twin, err := newTorrent(tc.proxied, true)
+	twin, err := newTorrent(tc.proxied, true, false)
 	if err != nil {
 		c.Emit("add", "error "+err.Error())
 		return
@@ -383,6 +656,7 @@ func stepSetConf(c *vhlib.Ctx, tc *tcase, nc conf) {
 func stepSlowTick(c *vhlib.Ctx, tc *tcase, stale bool) {
 	// the body of run()'s slow tick, transcribed (the real ticker is exercised by the
 	// realtick phase): announces when stale, trackerAnnounce under t.useTrackers
+	ready := tc.trackerReady()
 	if stale {
 		tc.handle(peer.TorAnnounce{IPv6: true})
 		tc.handle(peer.TorAnnounce{IPv6: false})
@@ -392,18 +666,119 @@ func stepSlowTick(c *vhlib.Ctx, tc *tcase, stale bool) {
 		tor.VerifTrackerAnnounce(tc.ctx, tc.t)
 	}
 	cs := takeDht(tc.t.Hash)
-	trs := tc.trackerCalls(ut)
-	s := "tr none"
-	if len(trs) > 0 {
-		s = fmt.Sprintf("tr %d,%d", trs[0].port4, trs[0].port6)
-		if len(trs) > 1 {
-			s += fmt.Sprintf(" +%d", len(trs)-1)
-		}
-	}
-	c.Emit("slowtick stale="+b01(stale), dhtStr(cs)+" "+s)
+	trs := tc.trackerCalls()
+	s := trStr(trs)
+	c.Emit("slowtick stale="+b01(stale)+" ready="+b01(ready), dhtStr(cs)+" "+s)
 	tc.checkDht(c, cs, "slowtick")
 	tc.checkTrackers(c, trs, "slowtick")
 	c.Count("slowtick", tc.cur.String()+s, len(trs) > 0)
+}
+
+// stepSettle: everything in flight finishes - held tracker announces and held web-seed
+// fetches fail or succeed - and the events this produces (and whatever the peers have
+// queued) run through the real handler, a few loop iterations
+func stepSettle(c *vhlib.Ctx, tc *tcase, fail bool) {
+	tc.releaseTrackers(fail)
+	tc.releaseFetches(!fail)
+	n := tc.fetchesStarted(c, func() { tc.pump(4) })
+	trs := tc.trackerCalls()
+	cs := takeDht(tc.t.Hash)
+	late := tc.takeLate()
+	obs := trStr(trs) + " ws-ok " + lateStr(late)
+	if len(cs) > 0 {
+		obs = dhtStr(cs) + " " + obs
+	}
+	c.Emit(fmt.Sprintf("settle fail=%s started=%d", b01(fail), n), obs)
+	tc.checkTrackers(c, trs, "settle")
+	tc.checkDht(c, cs, "settle")
+	tc.checkFetch(c, n, "settle")
+	tc.checkLate(c, late, "settle")
+	tc.reviveTrackers()
+	c.Count("settle", fmt.Sprintf("%s fail=%v %s", tc.cur, fail, obs), len(trs) > 0 || n > 0)
+}
+
+func (r *remotePeer) send(ms ...protocol.Message) {
+	r.b.SetWriteDeadline(time.Now().Add(2 * time.Second))
+	for _, m := range ms {
+		if protocol.Write(r.w, m, nil) != nil {
+			return
+		}
+	}
+	r.w.Flush()
+}
+
+// stepMetadata (magnet cases): a remote peer announces the metadata size in its extended
+// handshake and delivers the metadata over the wire; the torrent completes it and tells
+// every running peer (PeerMetadataComplete)
+func stepMetadata(c *vhlib.Ctx, tc *tcase) {
+	var src *remotePeer
+	for _, r := range tc.remotes {
+		if r.ext {
+			src = r
+			break
+		}
+	}
+	n := 0
+	if !tc.t.InfoComplete() && src != nil {
+		n = tc.fetchesStarted(c, func() {
+			src.send(protocol.Extended0{MetadataSize: uint32(len(tc.info)),
+				Messages: map[string]uint8{"ut_metadata": protocol.ExtMetadata, "ut_pex": protocol.ExtPex}})
+			deadline := time.Now().Add(2 * time.Second)
+			for tc.t.VerifInfoState().InfoLen != len(tc.info) && time.Now().Before(deadline) {
+				tc.pump(1)
+			}
+			src.send(protocol.ExtendedMetadata{Subtype: protocol.ExtMetadata, Type: 1, Piece: 0,
+				TotalSize: uint32(len(tc.info)), Data: append([]byte(nil), tc.info...)})
+			for !tc.t.InfoComplete() && time.Now().Before(deadline) {
+				tc.pump(1)
+			}
+			tc.pump(4)
+		})
+	}
+	late := tc.takeLate()
+	trs := tc.trackerCalls()
+	cs := takeDht(tc.t.Hash)
+	obs := "complete=" + b01(tc.t.InfoComplete()) + " ws-ok " + lateStr(late)
+	if len(trs) > 0 || len(cs) > 0 {
+		obs = dhtStr(cs) + " " + trStr(trs) + " " + obs
+	}
+	c.Emit(fmt.Sprintf("metadata started=%d", n), obs)
+	tc.checkFetch(c, n, "metadata")
+	tc.checkLate(c, late, "metadata")
+	tc.checkTrackers(c, trs, "metadata")
+	tc.checkDht(c, cs, "metadata")
+	c.Count("metadata", fmt.Sprintf("p=%v %s", tc.proxied, obs), true)
+}
+
+// stepTraffic: ordinary traffic on every connection: the remote ends unchoke us, announce
+// pieces and get interested; we announce a piece; everything runs through the handlers
+func stepTraffic(c *vhlib.Ctx, tc *tcase) {
+	n := tc.fetchesStarted(c, func() {
+		for _, r := range tc.remotes {
+			r.send(protocol.Unchoke{}, protocol.Have{Index: tc.nextIdx % 16}, protocol.Have{Index: (tc.nextIdx + 5) % 16}, protocol.Interested{})
+		}
+		if tc.t.InfoComplete() {
+			tc.handle(peer.TorHave{Index: (tc.nextIdx + 9) % 16, Have: true})
+		}
+		tc.pump(4)
+		for _, r := range tc.remotes {
+			r.send(protocol.Choke{})
+		}
+		tc.pump(2)
+	})
+	late := tc.takeLate()
+	trs := tc.trackerCalls()
+	cs := takeDht(tc.t.Hash)
+	obs := "ws-ok " + lateStr(late)
+	if len(trs) > 0 || len(cs) > 0 {
+		obs = dhtStr(cs) + " " + trStr(trs) + " " + obs
+	}
+	c.Emit(fmt.Sprintf("traffic started=%d", n), obs)
+	tc.checkFetch(c, n, "traffic")
+	tc.checkLate(c, late, "traffic")
+	tc.checkTrackers(c, trs, "traffic")
+	tc.checkDht(c, cs, "traffic")
+	c.Count("traffic", fmt.Sprintf("p=%v %s", tc.proxied, obs), n > 0)
 }
 
 func stepReqTick(c *vhlib.Ctx, tc *tcase) {
@@ -416,7 +791,12 @@ func stepReqTick(c *vhlib.Ctx, tc *tcase) {
 func stepWebseed(c *vhlib.Ctx, tc *tcase) {
 	idx := tc.nextIdx
 	tc.nextIdx = (tc.nextIdx + 1) % 16
-	n := tc.fetchesStarted(c, func() { tor.VerifMaybeWebseed(tc.ctx, tc.t, idx, false) })
+	n := tc.fetchesStarted(c, func() {
+		// periodicRequest, its only caller, returns before it without metadata
+		if tc.t.InfoComplete() {
+			tor.VerifMaybeWebseed(tc.ctx, tc.t, idx, false)
+		}
+	})
 	c.Emit(fmt.Sprintf("webseed idx=%d started=%d", idx, n), "ws-ok")
 	tc.checkFetch(c, n, "webseed")
 	c.Count("webseed", fmt.Sprintf("%s n=%d", tc.cur, n), n > 0)
@@ -448,32 +828,53 @@ func stepPeer(c *vhlib.Ctx, tc *tcase, dht, ext bool) {
 		v6seen bool
 		err    string
 	}
+	rp := &remotePeer{b: b, w: bufio.NewWriter(b), ext: ext}
+	tc.remotes = append(tc.remotes, rp)
 	res := make(chan seen, 1)
 	go func() {
+		// reads EVERYTHING storrent sends on this connection for the whole case
 		s := seen{port: "none", ext0: "none"}
 		r := bufio.NewReader(b)
 		b.SetReadDeadline(time.Now().Add(3 * time.Second))
+		prologue := true
 		for {
 			m, err := protocol.Read(r, nil)
-			if err != nil {
-				s.err = err.Error()
-				break
+			if err != nil && errors.Is(err, protocol.ErrParse) && !prologue {
+				continue // a frame we cannot decode was skipped; keep reading
 			}
-			done := false
+			if err != nil {
+				if prologue {
+					s.err = err.Error()
+					res <- s
+				}
+				return
+			}
 			switch m := m.(type) {
 			case protocol.Port:
-				s.port = strconv.Itoa(int(m.Port))
+				if prologue {
+					s.port = strconv.Itoa(int(m.Port))
+				} else {
+					rp.mu.Lock()
+					rp.late = append(rp.late, "port="+strconv.Itoa(int(m.Port)))
+					rp.mu.Unlock()
+				}
 			case protocol.Extended0:
-				s.v6seen = m.IPv6.IsValid()
-				s.ext0 = fmt.Sprintf("%s,%d", b01(m.Version != ""), m.Port)
+				if prologue {
+					s.v6seen = m.IPv6.IsValid()
+					s.ext0 = fmt.Sprintf("%s,%d", b01(m.Version != ""), m.Port)
+				} else {
+					rp.mu.Lock()
+					rp.late = append(rp.late, fmt.Sprintf("ext0=%s,%d,%s", b01(m.Version != ""), m.Port, b01(m.IPv6.IsValid() || m.IPv4.IsValid())))
+					rp.mu.Unlock()
+				}
 			case protocol.HaveNone, protocol.HaveAll, protocol.Bitfield:
-				done = true
-			}
-			if done {
-				break
+				if prologue {
+					prologue = false
+					b.SetReadDeadline(time.Time{})
+					res <- s
+				}
 			}
 		}
-		res <- s
 	}()
 	tc.handle(peer.TorAddPeer{Peer: p, Init: nil}) // starts the real peer.Run
 	s := <-res
@@ -608,7 +1009,7 @@ func runLines(c *vhlib.Ctx, lines []string) {
 			c.NewCase()
 			setDefaults(m["gt"] == "1", m["gw"] == "1", atoi(m["gd"]))
 			var err error
-			tc, err = newTorrent(m["p"] == "1", false)
+			tc, err = newTorrent(m["p"] == "1", false, m["m"] == "1")
 			if err != nil {
 				c.Emit(l, "error "+err.Error())
 				tc = nil
@@ -636,6 +1037,12 @@ func runLines(c *vhlib.Ctx, lines []string) {
 			stepSetConf(c, tc, conf{m["t"] == "1", m["w"] == "1", atoi(m["d"])})
 		case "slowtick":
 			stepSlowTick(c, tc, m["stale"] == "1")
+		case "settle":
+			stepSettle(c, tc, m["fail"] == "1")
+		case "metadata":
+			stepMetadata(c, tc)
+		case "traffic":
+			stepTraffic(c, tc)
 		case "reqtick":
 			stepReqTick(c, tc)
 		case "webseed":
@@ -664,19 +1071,40 @@ func (tc *tcase) finish(c *vhlib.Ctx) {
 	tc.close()
 }
 
-func genCase(c *vhlib.Ctx, p bool, g conf, seq []conf, full bool) []string {
-	ls := []string{fmt.Sprintf("new p=%s gt=%s gw=%s gd=%d", b01(p), b01(g.trackers), b01(g.webseeds), g.dht)}
-	ls = append(ls, "add", "want", "reqtick")
+func genCase(c *vhlib.Ctx, p bool, g conf, seq []conf, full bool, magnet bool) []string {
+	ls := []string{fmt.Sprintf("new p=%s gt=%s gw=%s gd=%d m=%s", b01(p), b01(g.trackers), b01(g.webseeds), g.dht, b01(magnet))}
+	ls = append(ls, "add")
+	if full || magnet {
+		// peers are connected for the whole case; their remote ends read everything
+		ls = append(ls, fmt.Sprintf("peer dht=%s ext=%s", b01(c.R.Bool()), "1"), "peer dht=1 ext=0")
+	}
+	ls = append(ls, "want", "reqtick")
 	probe := func() {
 		ls = append(ls, "announce v6="+b01(c.R.Bool()), "slowtick stale="+b01(c.R.Chance(40)), "want", "reqtick", "webseed")
 	}
 	probe()
-	for _, nc := range seq {
+	metaAt := -1
+	if magnet {
+		metaAt = c.R.Intn(len(seq) + 1)
+	}
+	for i, nc := range seq {
+		if i == metaAt {
+			ls = append(ls, "metadata", "traffic")
+		}
 		ls = append(ls, fmt.Sprintf("setconf %s", nc))
+		// whatever is in flight finishes, in either way, before anything is concluded
+		ls = append(ls, "settle fail="+b01(c.R.Bool()))
 		probe()
 	}
+	if metaAt == len(seq) {
+		ls = append(ls, "metadata")
+	}
+	if full || magnet {
+		ls = append(ls, "traffic")
+	}
+	ls = append(ls, "settle fail="+b01(c.R.Bool()), "slowtick stale=0", "settle fail="+b01(c.R.Bool()))
 	if full {
-		ls = append(ls, fmt.Sprintf("peer dht=%s ext=%s", b01(c.R.Bool()), "1"), "peer dht=1 ext=0", "incoming")
+		ls = append(ls, "incoming")
 	}
 	return ls
 }
@@ -704,7 +1132,7 @@ func realTick(c *vhlib.Ctx, phases int) {
 	cs := allConfs()
 	for _, p := range []bool{false, true} {
 		for _, cf := range cs {
-			tc, err := newTorrent(p, true)
+			tc, err := newTorrent(p, true, false)
 			if err != nil {
 				continue
 			}
@@ -724,17 +1152,18 @@ func realTick(c *vhlib.Ctx, phases int) {
 		for _, tc := range all {
 			tc.t.GetConf() // barrier: the tick's handler has run
 			var trs []trackerCall
-			for _, f := range tc.trackers {
-				for {
-					select {
-					case x := <-f.calls:
-						trs = append(trs, x)
-						continue
-					case <-time.After(20 * time.Millisecond):
-					}
-					break
+			for {
+				select {
+				case x := <-tc.trStarts:
+					trs = append(trs, x)
+					continue
+				case <-time.After(20 * time.Millisecond):
 				}
+				break
 			}
+			// the announce succeeds; the tracker is due again at the next tick
+			tc.releaseTrackers(false)
+			tc.reviveTrackers()
 			obs := "tr=0"
 			if len(trs) > 0 {
 				obs = fmt.Sprintf("tr=1 p4=%d p6=%d", trs[0].port4, trs[0].port6)
@@ -797,13 +1226,13 @@ func main() {
 	for _, p := range []bool{false, true} {
 		for i, cf := range cs {
 			g := cs[(i*5+3)%len(cs)]
-			lines = append(lines, genCase(c, p, g, []conf{cf}, true)...)
+			lines = append(lines, genCase(c, p, g, []conf{cf}, true, i%3 == 0)...)
 		}
 	}
 	// (2) every global default x proxy without any SetConf
 	for _, p := range []bool{false, true} {
 		for _, g := range cs {
-			lines = append(lines, genCase(c, p, g, nil, true)...)
+			lines = append(lines, genCase(c, p, g, nil, true, false)...)
 		}
 	}
 	// (3) random sequences of <= 3 SetConf
@@ -812,7 +1241,7 @@ func main() {
 		for k := c.R.Intn(3) + 1; k > 0; k-- {
 			seq = append(seq, cs[c.R.Intn(len(cs))])
 		}
-		lines = append(lines, genCase(c, c.R.Bool(), cs[c.R.Intn(len(cs))], seq, c.R.Chance(25))...)
+		lines = append(lines, genCase(c, c.R.Bool(), cs[c.R.Intn(len(cs))], seq, c.R.Chance(25), c.R.Chance(25))...)
 	}
 	runLines(c, lines)
 	// (4) real event loops and the real slow ticker
